@@ -38,6 +38,23 @@ def handle : List String → Option String
     let dim := shape.length
     let gf : Nat → Nat → Rat := fun c a => if a < dim then g.getD (c * dim + a) 0 else 0
     pure (s!"{showBool (certOK shape h (fn p) gf)} {showRat (certValue shape h (fn f) (fn p))}")
+  | "certq" :: rest => do
+    -- per-point dual certificate for the corner rule: shape, voxel sizes, f, p (per cell), g (cell-major, then corner, then axis)
+    let ((shape, h, f, p, g), _) ← (do
+      let s ← P.list P.nat; let h ← P.list P.rat; let f ← P.list P.rat; let p ← P.list P.rat; let g ← P.list P.rat
+      pure (s, h, f, p, g)).run rest
+    let dim := shape.length
+    let nq := 2 ^ dim
+    let gf : Nat → Nat → Nat → Rat := fun c q a => if a < dim ∧ q < nq then g.getD ((c * nq + q) * dim + a) 0 else 0
+    pure (s!"{showBool (certRuleOK shape h nq (cornerW dim) (cornerPt dim) (fn p) gf)} {showRat (certValue shape h (fn f) (fn p))}")
+  | ["cornerrule", dim] => do
+    let d ← dim.toNat?
+    pure (" | ".intercalate ((List.range (2 ^ d)).map fun q => showRats (cornerPt d q) ++ " : " ++ showRat (cornerW d q)))
+  | "sig" :: rest => do
+    -- signature of an image: R C dy dx, pixels row-major
+    let ((r, c, dy, dx, a), _) ← (do
+      let r ← P.nat; let c ← P.nat; let dy ← P.rat; let dx ← P.rat; let a ← P.list P.rat; pure (r, c, dy, dx, a)).run rest
+    pure (" | ".intercalate ((sigOf r c dy dx (fn a)).map fun t => showRats [t.1, t.2.1, t.2.2]))
   | "emd" :: rest => do
     let ((v, dy, dx, dr, dc), _) ← (do
       let v ← P.rat; let dy ← P.rat; let dx ← P.rat; let dr ← P.int; let dc ← P.int; pure (v, dy, dx, dr, dc)).run rest
